@@ -472,10 +472,15 @@ func (p *policy) Reconfigure(newCfg interface{}) error {
 
 	if err := p.initialize(); err != nil {
 		*p = savedPolicy
+		opt = p.cfg
+		defaultPrio = p.cfg.DefaultCPUPriority.Value()
 		return policyError("failed to reconfigure: %v", err)
 	}
 
 	if err := p.registerImplicitAffinities(); err != nil {
+		*p = savedPolicy
+		opt = p.cfg
+		defaultPrio = p.cfg.DefaultCPUPriority.Value()
 		return policyError("failed to reconfigure: %v", err)
 	}
 
@@ -492,6 +497,7 @@ func (p *policy) Reconfigure(newCfg interface{}) error {
 	if err := p.restoreAllocations(&allocations); err != nil {
 		*p = savedPolicy
 		opt = p.cfg
+		defaultPrio = p.cfg.DefaultCPUPriority.Value()
 		return policyError("failed to reconfigure: %v", err)
 	}
 
